@@ -43,6 +43,11 @@ pub struct Case {
     /// "of the log file that existed" is the size of what the link points to
     #[serde(default)]
     pub symlinked: bool,
+    /// between start-up and the first record somebody moves the log file away (logrotate, an operator): the start-up
+    /// decision still belongs to the first record - there is nothing left to archive, the first record opens a fresh
+    /// file at the path, and no rotation is requested while handling any later record
+    #[serde(default)]
+    pub moved_away: bool,
 }
 
 pub fn strategy() -> impl Strategy<Value = Case> {
@@ -55,9 +60,9 @@ pub fn strategy() -> impl Strategy<Value = Case> {
         lens(),
         prop::option::weighted(0.12, prop::collection::vec(prop::collection::vec(0usize..40, 1..=5), 2..=8)),
         prop::option::weighted(0.35, lens()),
-        (prop::bool::weighted(0.2), prop::bool::ANY, prop::bool::ANY, prop::bool::weighted(0.2), prop::bool::weighted(0.2)),
+        (prop::bool::weighted(0.2), prop::bool::ANY, prop::bool::ANY, prop::bool::weighted(0.2), prop::bool::weighted(0.2), prop::bool::weighted(0.15)),
     )
-        .prop_map(|(min_size, pre, append_mode, count, records, threads, second_lifetime, (fail_first_roll, fail_after_moving, via_config_default, first_encode_fails, symlinked))| Case { symlinked: symlinked && pre.is_some(), min_size, pre, append_mode, count, records, fail_first_roll: fail_first_roll && threads.is_none(), first_encode_fails: first_encode_fails && threads.is_none() && !fail_first_roll, threads, second_lifetime, long_lifetime: 0, fail_after_moving, via_config_default })
+        .prop_map(|(min_size, pre, append_mode, count, records, threads, second_lifetime, (fail_first_roll, fail_after_moving, via_config_default, first_encode_fails, symlinked, moved_away))| Case { moved_away, symlinked: symlinked && pre.is_some(), min_size, pre, append_mode, count, records, fail_first_roll: fail_first_roll && threads.is_none(), first_encode_fails: first_encode_fails && threads.is_none() && !fail_first_roll, threads, second_lifetime, long_lifetime: 0, fail_after_moving, via_config_default })
 }
 
 pub fn check(tmp: &Path, case: &Case, obs: &mut Obs) -> CaseResult {
@@ -131,10 +136,15 @@ fn check_in(dir: &Path, case: &Case, obs: &mut Obs) -> CaseResult {
         // a roller that archives the file and fails afterwards: the archive exists, the append reports the error,
         // and the next record opens a fresh file
         let moved_anyway = roll_fails && case.fail_after_moving;
+        let moved = case.moved_away && li == 0 && must_roll && case.threads.is_none() && !case.first_encode_fails && existed && !case.symlinked;
         let mut expected_active: Vec<u8> = if must_roll || moved_anyway { vec![] } else { start_content.clone() };
-        if must_roll || moved_anyway {
+        if (must_roll || moved_anyway) && !moved {
             archives.insert(0, start_content.clone());
             archives.truncate(case.count as usize);
+        }
+        if moved {
+            std::fs::rename(&path, dir.join("moved-away-by-somebody.log")).map_err(|e| Failure { sig: "C17:harness".into(), msg: e.to_string() })?;
+            obs.class("log-file-moved-away-before-the-first-record");
         }
         if li == 0 && case.threads.is_some() {
             // simultaneous start: all threads released by a barrier
@@ -309,7 +319,7 @@ pub fn run(run: &Run) {
     if run.worker.0 == 0 {
         // one very long lifetime: the "first record" latch must hold beyond any counter width one might pick
         for (pre, min_size) in [(Some(10i64), 5u64), (Some(-3), 40)] {
-            run.eval_one("startup", &Case { min_size, pre, append_mode: true, count: 2, records: vec![3, 0, 7], threads: None, second_lifetime: None, fail_first_roll: false, long_lifetime: 70_000, fail_after_moving: false, via_config_default: false, first_encode_fails: false, symlinked: false }, &f);
+            run.eval_one("startup", &Case { min_size, pre, append_mode: true, count: 2, records: vec![3, 0, 7], threads: None, second_lifetime: None, fail_first_roll: false, long_lifetime: 70_000, fail_after_moving: false, via_config_default: false, first_encode_fails: false, symlinked: false, moved_away: false }, &f);
         }
     }
     run.search("startup", run.tier.pick(1_500, 80_000), strategy(), &f);
